@@ -14,7 +14,7 @@ PLAN, statement by statement, into Gallina programs over the explicit object-gra
     resolved through the `name = property(getter, setter)` lines of the class and compiled from the
     getter / setter source
   * `assert`, `raise`, `try/except ValueError|bare: pass [else]` around one simple statement,
-    `for ... [else]` with `break`, `enumerate`, tuple assignment, `+=`, early `return`,
+    `for ... [else]` with `break` / `continue`, `enumerate`, tuple assignment, `+=`, early `return`,
     calls of already translated methods (with constant-flag specialisation, so that
     remove_child(..., suppress_unifurcations=False) inside remove_child is not a recursion)
   * attribute access on a possibly-None value raises AttributeError, l[i] IndexError,
@@ -42,8 +42,14 @@ NODE, EDGE, TREE, BOOL, INT, LEN, NONE, UNIT, KW = (("node",), ("edge",), ("tree
                                                     ("len",), ("none",), ("unit",), ("kw",))
 TAXON = ("taxon",)          # identity of a Taxon object
 NFN = ("nfn",)              # callable node -> truth value (filter_fn)
+KEYFN = ("keyfn",)          # sort key: callable node -> rank, may read the object graph
+NDICT = ("ndict",)          # dict node -> int
 RNG = ("rng",)              # scripted random.Random: the remaining script
 TAXFN = ("taxfn",)          # TaxonNamespace.get_taxa(labels=...) of the tree's namespace
+NNDICT = ("nndict",)        # dict node -> node
+SNFN = ("snfn",)            # callable node -> truth value that reads the object graph when called
+LABEL = ("label",)          # a label value (copied, never inspected)
+DICT_TYS = [NDICT, NNDICT]
 
 
 def TList(t): return ("list", t)
@@ -64,6 +70,12 @@ def coq_ty(t):
     if k == "nfn": return "((mnode G) -> bool)"
     if k == "taxfn": return "((list Z) -> (list Z))"
     if k == "rng": return "(list (list nat))"
+    if k == "keyfn": return "((mst G) -> (mnode G) -> Z)"
+    if k == "ndict": return "(list ((mnode G) * Z))"
+    if k == "nndict": return "(list ((mnode G) * (mnode G)))"
+    if k == "snfn": return "((mst G) -> (mnode G) -> bool)"
+    if k == "label": return "(option Z)"
+    if k == "labelfn": return "(Z -> Z)"
     if k == "list": return "(list %s)" % coq_ty(t[1])
     if k == "opt": return "(option %s)" % coq_ty(t[1])
     if k == "tup": return "(%s * %s)" % (coq_ty(t[1]), coq_ty(t[2]))
@@ -156,6 +168,8 @@ class Fn:
         self.counter = 0
         self.handlers = []            # try/except: (caught set | None for bare, continuation)
         self.loop = []                # for-loops: (loop var names,)
+        self.dirty_stack = []         # per loop: was the graph written on the paths that go on iterating
+        self.loop_types = []          # per loop: types of the loop-carried locals at loop entry
         self.rebinds_kids = False
 
     def fresh(self, base):
@@ -181,9 +195,12 @@ class Fn:
         for n, d in zip(names[1:], defaults[1:]):
             if n not in self.ptypes:
                 raise Unsupported("%s: parameter %s has no declared type" % (self.name, n))
-            if d is not None and not isinstance(d, ast.Constant):
+            if d is not None and isinstance(d, ast.Lambda) and self.ptypes[n] == KEYFN:
+                self.gen.default_key(self.cls, self.fn.name, n, d)      # compiled separately
+                d = ast.Name(id="<non-translatable default>", ctx=ast.Load())
+            if d is not None and not isinstance(d, (ast.Constant, ast.Name)):
                 raise Unsupported("%s: default of %s" % (self.name, n))
-            if d is not None and not (d.value is None or isinstance(d.value, bool)):
+            if isinstance(d, ast.Constant) and not (d.value is None or isinstance(d.value, bool)):
                 d = ast.Name(id="<non-translatable default>", ctx=ast.Load())   # a call that omits it fails closed
             params.append((n, self.ptypes[n], d))
         if a.kwarg:
@@ -282,6 +299,10 @@ class Fn:
             if e.elts:
                 raise Unsupported("%s: list display with %d elements" % (self.name, len(e.elts)))
             return k("[]", TList(("any",)), env)
+        if isinstance(e, ast.Dict):
+            if e.keys:
+                raise Unsupported("%s: non-empty dict display" % self.name)
+            return k("(@nil ((mnode G) * Z))", NDICT, env)
         if isinstance(e, ast.Tuple):
             if not e.elts:
                 return k("[]", TList(("any",)), env)      # (): only iterated / extended / returned below
@@ -299,6 +320,13 @@ class Fn:
             return self.cexpr(c.args[0], env, lambda lt, lty, e1: (
                 "(match %s with\n  | [dv_i] :: %s => (match nth_error %s dv_i with\n  | Some dv_pick => %s\n  | None => MFuel\n  end)\n  | _ => MFuel\n  end)"
                 % (e1.vars[rn][1], rn, lt, k("dv_pick", lty[1], e1.bind(rn, rn, RNG)))))
+        if isinstance(e, ast.Subscript) and isinstance(e.value, ast.Name) and e.value.id in env.vars \
+                and env.vars[e.value.id][2:] == (NDICT,):
+            dt = env.vars[e.value.id][1]
+            v = self.fresh("val")
+            return self.cexpr(e.slice, env, lambda kt, kty, e1: (
+                "(match py_dict_get (mg_eqb G) %s %s with\n  | Some %s => %s\n  | None => %s\n  end)"
+                % (self.coerce(kt, kty, NODE), dt, v, k(v, INT, e1), self.rz("KeyErr", e1))))
         if isinstance(e, ast.Subscript):
             return self.cexpr(e.value, env, lambda lt, lty, e1: self.cexpr(e.slice, e1, lambda it, ity, e2:
                               self.subscript(lt, lty, it, ity, e2, k)))
@@ -755,6 +783,11 @@ class Fn:
             if not self.loop:
                 raise Unsupported("%s: break outside a loop" % self.name)
             return "(MOk (LBreak %s) s)" % self.loop_tuple(env)
+        if isinstance(s, ast.Continue):
+            if not self.loop:
+                raise Unsupported("%s: continue outside a loop" % self.name)
+            self.dirty_stack[-1].append(env.dirty)
+            return "(MOk (LNext %s) s)" % self.loop_tuple(env)
         if isinstance(s, ast.If):
             return self.cond(s.test, env, lambda e1: self.block(list(s.body), e1, nxt),
                              lambda e1: self.block(list(s.orelse), e1, nxt))
@@ -781,7 +814,7 @@ class Fn:
 
     def call_stmt(self, c, env, nxt):
         f = c.func
-        if isinstance(f, ast.Attribute) and f.attr in ("append", "remove", "insert", "clear", "reverse", "extend"):
+        if isinstance(f, ast.Attribute) and f.attr in ("append", "remove", "insert", "clear", "reverse", "extend", "sort"):
             def kplace(node, e1):
                 def with_list(cur):
                     if f.attr == "append" and len(c.args) == 1:
@@ -802,8 +835,30 @@ class Fn:
                         return self.write_kids(node, "[]", e1, nxt)
                     if f.attr == "reverse" and not c.args:
                         return self.write_kids(node, "(rev %s)" % cur, e1, nxt)
+                    if f.attr == "sort" and not c.args:
+                        kw = {x.arg: x.value for x in c.keywords}
+                        if set(kw) != {"key", "reverse"}:
+                            raise Unsupported("%s: sort form" % self.name)
+                        rv = kw["reverse"]
+                        if isinstance(rv, ast.UnaryOp) and isinstance(rv.op, ast.Not) and isinstance(rv.operand, ast.Name) \
+                                and e1.vars.get(rv.operand.id, (0, 0, 0))[2] == BOOL:
+                            rt = "(negb %s)" % e1.vars[rv.operand.id][1]
+                        elif isinstance(rv, ast.Name) and e1.vars.get(rv.id, (0, 0, 0))[2] == BOOL:
+                            rt = e1.vars[rv.id][1]
+                        else:
+                            raise Unsupported("%s: sort reverse argument" % self.name)
+                        ky = kw["key"]
+                        if isinstance(ky, ast.Name) and e1.vars.get(ky.id, (0, 0, 0))[2] == KEYFN:
+                            return self.write_kids(node, "(py_sort_by (%s s) %s %s)" % (e1.vars[ky.id][1], rt, cur), e1, nxt)
+                        if (isinstance(ky, ast.Attribute) and ky.attr == "__getitem__" and isinstance(ky.value, ast.Name)
+                                and e1.vars.get(ky.value.id, (0, 0, 0))[2] == NDICT):
+                            dt = e1.vars[ky.value.id][1]
+                            return ("(if py_dict_has_all (mg_eqb G) %s %s\n  then %s\n  else %s)"
+                                    % (cur, dt, self.write_kids(node, "(py_sort_by (py_dict_key (mg_eqb G) %s) %s %s)" % (dt, rt, cur), e1, nxt),
+                                       self.rz("KeyErr", e1)))
+                        raise Unsupported("%s: sort key" % self.name)
                     raise Unsupported("%s: list.%s form" % (self.name, f.attr))
-                if c.keywords:
+                if c.keywords and f.attr != "sort":
                     raise Unsupported("%s: list.%s keywords" % (self.name, f.attr))
                 return self.let("kids", "(rd_kids G s %s)" % node, with_list)
             r = self.list_place(f.value, env, kplace)
@@ -897,6 +952,13 @@ class Fn:
             return self.cexpr(s.value, env, kv)
         if isinstance(tgt, ast.Attribute):
             return self.cexpr(s.value, env, lambda vt, vty, e1: self.store_attr(tgt, vt, vty, e1, nxt))
+        if isinstance(tgt, ast.Subscript) and isinstance(tgt.value, ast.Name) and tgt.value.id in env.vars \
+                and env.vars[tgt.value.id][2:] == (NDICT,):
+            dn = tgt.value.id
+            return self.cexpr(tgt.slice, env, lambda kt, kty, e1: self.cexpr(s.value, e1, lambda vt, vty, e2: (
+                "(let %s := py_dict_set (mg_eqb G) %s %s %s in\n  %s)"
+                % (dn, self.coerce(kt, kty, NODE), self.coerce(vt, vty, INT), env.vars[dn][1],
+                   nxt(e2.bind(dn, dn, NDICT))))))
         if isinstance(tgt, ast.Subscript):
             def kplace(node, e1):
                 def kidx(it, ity, e2):
@@ -972,8 +1034,10 @@ class Fn:
         for n in carried:
             benv = benv.bind(n, n, env.vars[n][2])
         self.loop.append(carried)
+        self.dirty_stack.append([])
         outer_rebinds, self.rebinds_kids = self.rebinds_kids, False
         types = {n: env.vars[n][2] for n in carried}
+        self.loop_types.append(types)
 
         def back(kind):
             def k(e2):
@@ -993,6 +1057,8 @@ class Fn:
             body = self.cond(s.test, benv, lambda e1: self.block(list(s.body), e1, back("LNext")), back("LBreak"))
         finally:
             self.loop.pop()
+            self.dirty_stack.pop()
+            self.loop_types.pop()
             body_rebinds = self.rebinds_kids
             self.rebinds_kids = outer_rebinds or body_rebinds
         after_env = env.changed(body_rebinds)
@@ -1075,7 +1141,9 @@ class Fn:
         vals = []
         for n in names:
             v = env.vars[n]
-            vals.append(v[1])
+            if v[0] != "val":
+                raise Unsupported("%s: loop variable %s becomes an alias" % (self.name, n))
+            vals.append(self.coerce(v[1], v[2], self.loop_types[-1][n]))
         return vals[0] if len(vals) == 1 else "(%s)" % ", ".join(vals)
 
     def for_stmt(self, s, env, nxt):
@@ -1087,6 +1155,10 @@ class Fn:
             if isinstance(n, ast.Name) and isinstance(n.ctx, ast.Store) and n.id not in assigned:
                 assigned.append(n.id)
         for n in ast.walk(ast.Module(body=list(s.body), type_ignores=[])):
+            if (isinstance(n, ast.Subscript) and isinstance(n.ctx, ast.Store) and isinstance(n.value, ast.Name)
+                    and n.value.id in env.vars and len(env.vars[n.value.id]) > 2 and env.vars[n.value.id][2] in DICT_TYS
+                    and n.value.id not in assigned):
+                assigned.append(n.value.id)
             if (isinstance(n, ast.Call) and isinstance(n.func, ast.Attribute)
                     and n.func.attr in ("append", "shuffle", "sample", "choice", "randrange")
                     and isinstance(n.func.value, ast.Name) and n.func.value.id in env.vars
@@ -1130,12 +1202,16 @@ class Fn:
             vpat = "tt" if not carried else (carried[0] if len(carried) == 1 else "'(%s)" % ", ".join(carried))
             vpat_b = "_" if not carried else vpat
             self.loop.append(carried)
+            self.dirty_stack.append(dirty_next)
+            self.loop_types.append({n: env.vars[n][2] for n in carried})
             outer_rebinds, self.rebinds_kids = self.rebinds_kids, False
             try:
                 body = self.block(list(s.body), benv,
                                   lambda e2: (dirty_next.append(e2.dirty), "(MOk (LNext %s) s)" % self.loop_tuple(e2))[1])
             finally:
                 self.loop.pop()
+                self.dirty_stack.pop()
+                self.loop_types.pop()
                 body_rebinds = self.rebinds_kids
                 self.rebinds_kids = outer_rebinds or body_rebinds
             init = "tt" if not carried else (env.vars[carried[0]][1] if len(carried) == 1
@@ -1262,6 +1338,8 @@ PLAN = [
     ("Tree", "collapse_unweighted_edges", "eff", UNIT, {"threshold": INT, "update_bipartitions": BOOL}, None),
     ("Tree", "randomly_rotate", "eff", UNIT, {"rng": RNG}, None),
     ("Tree", "randomly_reorient", "eff", UNIT, {"rng": RNG, "update_bipartitions": BOOL}, None, None, ("reseed_at",)),
+    ("Tree", "reorder", "eff", UNIT, {"ascending": BOOL, "key": KEYFN}, None),
+    ("Tree", "ladderize", "eff", UNIT, {"ascending": BOOL}, None),
     ("Tree", "prune_leaves_without_taxa", "eff", TList(NODE),
      {"recursive": BOOL, "update_bipartitions": BOOL, "suppress_unifurcations": BOOL}, None,
      {"nodes_removed": TList(NODE), "nodes_to_remove": TList(NODE)}, ("suppress_unifurcations",)),
@@ -1358,6 +1436,18 @@ class Generator:
         if len(body) != 1 or dump(body[0]) != dump(want):
             raise Unsupported("Tree.postorder_node_iter is not the plain wrapper")
 
+    def default_key(self, cls, meth, param, lam):
+        """key=lambda nd: getattr(getattr(nd, 'taxon', None), 'label', ''): the taxon label, '' without taxon.
+        Labels are compared as strings: label_rank maps a taxon to the rank (>= 1) of its label, '' ranks 0."""
+        want = ast.parse("lambda nd: getattr(getattr(nd, 'taxon', None), 'label', '')", mode="eval").body
+        if dump(lam) != dump(want):
+            raise Unsupported("%s.%s: default of %s is not the taxon-label key" % (cls, meth, param))
+        self.extra_defs.append(
+            "(* default `%s` of %s.%s: %s *)\n"
+            "Definition %s_%s__default_%s (label_rank : Z -> Z) (s : mst G) (nd : (mnode G)) : Z :=\n"
+            "  (match rd_taxon G s nd with\n  | Some dv_x => label_rank dv_x\n  | None => 0\n  end)."
+            % (param, cls, meth, ast.unparse(lam), cls, meth, param))
+
     def check_wrapper(self, name, stmt):
         f = find_method(self.classes["Tree"], name)
         body = [x for x in f.body if not (isinstance(x, ast.Expr) and isinstance(x.value, ast.Constant))]
@@ -1429,7 +1519,11 @@ class Generator:
             ltypes = entry[6] if len(entry) > 6 else None
             use_extern = entry[7] if len(entry) > 7 else ()
             fn = Fn(self, cls, find_method(self.classes[cls], meth), kind, ret, ptypes, spec, ltypes, use_extern)
+            self.extra_defs = []
             text = fn.compile()
+            for d in self.extra_defs:
+                out.append(d)
+                out.append("")
             key = (cls, meth, tuple(sorted((spec or {}).items())))
             self.registry[key] = {"coq": fn.name, "params": fn.params, "kind": kind, "ret": ret,
                                   "spec": tuple(sorted((spec or {}).items())), "rebinds_kids": fn.rebinds_kids,
